@@ -82,7 +82,10 @@ def chk_zero_capacity_guard(F):
         t = b.blocks[g]['term']
         if t['k'] == 'switch' and b.dominates(g, cs[0]) and g != cs[0]:
             d = describe(b, t['op'], depth=4, at=g)
-            if d.startswith(('Eq(', 'Ne(', 'Gt(', 'Lt(')) and 'capacity(' in d and (d.endswith(', 0)') or d.startswith(('Lt(0, ', 'Gt('))):
+            from .paths import parse_term
+            nm, ar = parse_term(d)
+            if nm in ('Eq', 'Ne', 'Gt', 'Lt', 'Le', 'Ge') and ar and len(ar) == 2 and any('capacity(' in a for a in ar) \
+                    and any(a.replace('const ', '').replace('_usize', '').replace('_u16', '') in ('0', '1') for a in ar):
                 return True, d
     return False, 'no capacity() == 0 test dominates the reservation: with capacity 0 atomic_arena indexes an empty slot list (panic instead of the limit error)'
 
